@@ -217,7 +217,9 @@ FlushTemp(t) ==
   /\ fl' = [fl EXCEPT ![t] = [pc |-> "temp", noRaw |-> @.noRaw, sorted |-> @.sorted,
                               file |-> [cells |-> FlushContent(t, @.noRaw, @.sorted),
                                         off   |-> mem[t].off,
-                                        flds  |-> mem[t].flds]]]
+                                        flds  |-> mem[t].flds,
+                                        trunc |-> @.noRaw \/ @.sorted,   \* every row re-encoded
+                                        now   |-> clock]]]
   /\ UNCHANGED <<wal, clock, up, opened, rd, pend, mem, cur, disk, offFile, flushCount, where, flds, nextFile>>
 
 \* fsync, close, rename into the table directory (row_store.go:410-427)
@@ -281,7 +283,8 @@ RSFields(t) ==
   /\ fl[t].pc = "idle"
   /\ mem[t].flds # flds[t]
   /\ IF mem[t].cells = EmptyBag
-     THEN /\ mem' = [mem EXCEPT ![t].flds = flds[t]]
+     THEN \* (if the offset moved, the offset file is written next: OffWrite)
+          /\ mem' = [mem EXCEPT ![t].flds = flds[t]]
           /\ UNCHANGED fl
      ELSE /\ mem' = [mem EXCEPT ![t].flds = flds[t],
                                 ![t].cells = OnFields(@, flds[t])]
